@@ -1565,6 +1565,10 @@ M('C17', 'original defect: MomentumMPS.from_hdf5 does not bind dtype', 'tenpy/ne
   "        obj.dtype = np.result_type(*(X.dtype for X in obj._X))\n", "",
   'HDF5-inherited-loader')
 
+M('C17', 'original defect: MPS.save_hdf5 reduces the possibly empty list of bond dimensions', 'tenpy/networks/mps.py',
+  "np.max(self.chi, initial=1)  # same (no non-trivial bond for a single site)", "np.max(self.chi)  # same",
+  'HDF5-empty-safe')
+
 M('C02', 'original defect: iswapaxes re-binds _qdata to an F-contiguous column selection', NPC,
   "        self._qdata = np.array(self._qdata[:, swap], order='C')  # (column selection is F-contiguous)", "        self._qdata = self._qdata[:, swap]",
   'QDATA-contiguous')
